@@ -3,3 +3,4 @@ import XsdataModel.Py.TblEnv
 import XsdataModel.Tables
 import XsdataModel.Lex.Dates
 import XsdataModel.Code.Pycode
+import XsdataModel.Code.PycodeWF
